@@ -27,6 +27,7 @@ pub struct MediumStats {
     pub fail_write_at: Option<u64>,
     pub fail_read_at: Option<u64>,
     pub fail_seek_at: Option<u64>,
+    pub fail_flush_at: Option<u64>,
     pub persistent: bool,
     pub failed_calls: u64,
 }
@@ -90,7 +91,13 @@ impl Write for Medium {
         Ok(data.len())
     }
     fn flush(&mut self) -> io::Result<()> {
-        self.stats.borrow_mut().flushes += 1;
+        let mut st = self.stats.borrow_mut();
+        let n = st.flushes;
+        st.flushes += 1;
+        if should_fail(st.fail_flush_at, n, st.persistent) {
+            st.failed_calls += 1;
+            return Err(injected());
+        }
         Ok(())
     }
 }
